@@ -228,7 +228,8 @@ class ExprMixin:
         if a.s == POLY_LIST and isinstance(op, ast.Add):
             return [(st, b)]
         if isinstance(a.s, S._Str) and isinstance(op, ast.Mod):
-            return [(st, a.s.fresh("fmt"))]
+            r = self.format_percent(a, b, node)
+            return [(st, r if r is not None else a.s.fresh("fmt"))]
         if isinstance(a.s, S._Str) and isinstance(op, ast.Mult) and b.s == INT:
             return [(st, a.s.fresh("strmul"))]
         if isinstance(a.s, SetS):
@@ -246,6 +247,47 @@ class ExprMixin:
             # arithmetic on opaque values (floats, paths): unconstrained result, may raise TypeError
             return [(st, ANY.fresh("binop"))]
         raise EngineError("unsupported operator %s on %s, %s (L%d)" % (type(op).__name__, a.s, b.s, node.lineno))
+
+    def format_percent(self, a, b, node):
+        """`literal % args` where every directive is %s applied to a value of the same string type (bytes % bytes,
+        str % str) or %d applied to an int with str(int) available: exact concatenation. Anything else: None (unconstrained)."""
+        if not z3.is_string_value(a.t):
+            return None
+        fmt = a.t.as_string()
+        if "\\u{" in fmt or "\\x" in fmt:
+            return None
+        args = []
+        if isinstance(b.s, Tup):
+            args = [b.s.get(b, i) for i in range(len(b.s.elems))]
+        else:
+            args = [b]
+        parts, i, k = [], 0, 0
+        lit = ""
+        while i < len(fmt):
+            ch = fmt[i]
+            if ch == "%":
+                if i + 1 < len(fmt) and fmt[i + 1] == "%":
+                    lit += "%"
+                    i += 2
+                    continue
+                if i + 1 < len(fmt) and fmt[i + 1] == "s" and k < len(args) and isinstance(args[k].s, S._Str) and args[k].s == a.s:
+                    if lit:
+                        parts.append(z3.StringVal(lit))
+                        lit = ""
+                    parts.append(args[k].t)
+                    k += 1
+                    i += 2
+                    continue
+                return None
+            lit += ch
+            i += 1
+        if k != len(args):
+            return None
+        if lit:
+            parts.append(z3.StringVal(lit))
+        if not parts:
+            return V(a.s, z3.StringVal(""))
+        return V(a.s, parts[0] if len(parts) == 1 else z3.Concat(*parts))
 
     def ev_BoolOp(self, e, st, exc, expect):
         is_and = isinstance(e.op, ast.And)
